@@ -625,4 +625,128 @@ theorem bbmd_once {w : World} (hw : WF w) (hp : Pop w) (hm : Mesh w)
       rw [distFrom_home hw hp hm hnx hx hh hno ho hng hG hacc] at this
       exact this
 
+
+/-! ### a foreign device that is not registered -/
+
+theorem outObs_atNode (a a' : Addr) (l : List Out) : ∀ ob ∈ outObs a l, atNode a' ob = true → a' = a := by
+  induction l with
+  | nil => intro ob h; cases h
+  | cons o r ih =>
+    intro ob hob hat
+    cases o with
+    | send dd m =>
+      cases dd with
+      | other =>
+        simp only [outObs, List.mem_cons] at hob
+        rcases hob with rfl | hob
+        · exact (by simpa [atNode] using hat : a = a').symm
+        · exact ih ob hob hat
+      | bcast => exact ih ob (by simpa [outObs] using hob) hat
+      | station _ => exact ih ob (by simpa [outObs] using hob) hat
+    | up _ _ _ =>
+      simp only [outObs, List.mem_cons] at hob
+      rcases hob with rfl | hob
+      · exact (by simpa [atNode] using hat : a = a').symm
+      · exact ih ob hob hat
+    | sap _ _ =>
+      simp only [outObs, List.mem_cons] at hob
+      rcases hob with rfl | hob
+      · exact (by simpa [atNode] using hat : a = a').symm
+      · exact ih ob hob hat
+    | warn => exact ih ob (by simpa [outObs] using hob) hat
+    | raised _ =>
+      simp only [outObs, List.mem_cons] at hob
+      rcases hob with rfl | hob
+      · exact (by simpa [atNode] using hat : a = a').symm
+      · exact ih ob hob hat
+
+/-- **stops being served**: while a foreign device's registration status is not 0 (never
+    acknowledged, refused, expired, unregistered), NOTHING is handed up at it, whatever
+    broadcast-carrying datagrams fly and whatever the BBMDs' tables still say -/
+theorem unregistered_foreign_hears_nothing {w : World} (hw : WF w) {nx : Net} (hnx : nx ∈ w.nets)
+    {xa : Addr} {fs : Foreign} (hx : (⟨xa, .foreign fs⟩ : Node) ∈ nx.nodes) (hst : fs.status ≠ 0)
+    (f : Nat) (q : List Dgram) (hq : ∀ d ∈ q, Good w d) :
+    (World.run f w q).2.1.countP (atNode xa) = 0 := by
+  rw [run_static f w q hq, List.countP_eq_zero]
+  have := mem_runObs (P := fun ob => ¬ atNode xa ob = true) w (Good w) ?_ f q hq
+  · exact this
+  intro d hg
+  refine ⟨?_, outS_good w d hg⟩
+  intro ob hob hat
+  simp only [obsS, List.mem_flatMap] at hob
+  obtain ⟨n, hn, hob⟩ := hob
+  split at hob
+  · simp only [netObs, List.mem_flatMap] at hob
+    obtain ⟨nd, hnd, hob⟩ := hob
+    unfold reactObs at hob
+    split at hob
+    · next hh =>
+      have hxa : xa = nd.addr := outObs_atNode nd.addr xa _ ob hob hat
+      have hnode : nd = ⟨xa, .foreign fs⟩ := hw.node_eq hn hnx hnd hx hxa.symm
+      subst hnode
+      rcases hg with hb | ⟨hdist, hnb, hbb⟩
+      · cases hm : d.msg <;> simp [hm, Bvll.isBc] at hb
+        · simp [hm, Kind.up, foreignUp, hst, outObs] at hob
+        · simp [hm, Kind.up, foreignUp, outObs] at hob
+      · have hne : d.dst ≠ n.bcast := hnb n hn
+        have haddr : xa = d.dst := by simpa [hits, hne] using hh
+        have := hbb n hn _ hnd haddr
+        simp [Kind.isBbmd] at this
+    · cases hob
+  · cases hob
+
+/-! ### non-vacuity: a concrete world that meets every hypothesis -/
+
+namespace Example
+
+def P : Nat := 47808
+def ip (i h : Nat) : Nat := 167772160 + 256 * i + h
+def ad (i h : Nat) : Addr := ⟨ip i h, P⟩
+def full : Nat := 4294967295
+def bdt : List BdtEntry := [⟨ad 1 2, full⟩, ⟨ad 2 2, full⟩, ⟨ad 3 2, full⟩]
+def port (i : Nat) : Option Port := some ⟨ad i 1, 4294967040, ip i 0⟩
+def fdA : Node := ⟨ad 4 100, .foreign { status := 0, bbmd := some (ad 1 2), ttl := some 30 }⟩
+def fdB : Node := ⟨ad 2 101, .foreign { status := 0, bbmd := some (ad 3 2), ttl := some 60 }⟩
+def fdC : Node := ⟨ad 4 102, .foreign { status := -1 }⟩        -- not registered
+def b1 : Node := ⟨ad 1 2, .bbmd { addr := ad 1 2, bdt := bdt, fdt := [⟨ad 4 100, 30, 12⟩] }⟩
+def b2 : Node := ⟨ad 2 2, .bbmd { addr := ad 2 2, bdt := bdt.reverse, fdt := [] }⟩
+def b3 : Node := ⟨ad 3 2, .bbmd { addr := ad 3 2, bdt := bdt, fdt := [⟨ad 2 101, 60, 65⟩] }⟩
+def s (i h : Nat) : Node := ⟨ad i h, .simple⟩
+def n1 : Net := ⟨1, ad 1 255, port 1, [s 1 10, b1, s 1 11]⟩
+def n2 : Net := ⟨2, ad 2 255, port 2, [b2, fdB]⟩
+def n3 : Net := ⟨3, ad 3 255, port 3, [s 3 10, s 3 11, s 3 12, b3]⟩
+def n4 : Net := ⟨4, ad 4 255, port 4, [fdA, fdC]⟩
+/-- three subnets with a BBMD each (full mesh, different table orders), five ordinary nodes,
+    a foreign device on a subnet of its own, one inside another BBMD's subnet, one unregistered -/
+def world : World := { nets := [n1, n2, n3, n4] }
+
+theorem wf : WF world := by decide +kernel
+theorem pop : Pop world := by decide +kernel
+theorem mesh : Mesh world := by decide +kernel
+theorem home_s : Home world n1 (s 1 10) (ad 1 2) := by decide +kernel
+theorem home_b : Home world n2 b2 (ad 2 2) := by decide +kernel
+theorem home_fA : Home world n4 fdA (ad 1 2) := by decide +kernel
+theorem home_fB : Home world n2 fdB (ad 3 2) := by decide +kernel
+
+/-- the hypotheses of `bbmd_once` are met by originators and targets of all three kinds -/
+example : Outcome world (ad 4 100) [1, 2, 3] (ad 3 11) 1 :=
+  bbmd_once wf pop mesh (no := n4) (by decide) (o := fdA) (by decide) home_fA
+    (nx := n3) (by decide) (x := s 3 11) (by decide) (h := ad 3 2) (by decide +kernel) [1, 2, 3]
+
+example : Outcome world (ad 1 10) [9] (ad 2 101) 1 :=
+  bbmd_once wf pop mesh (no := n1) (by decide) (o := s 1 10) (by decide) home_s
+    (nx := n2) (by decide) (x := fdB) (by decide) home_fB [9]
+
+example : Outcome world (ad 2 2) [] (ad 2 2) 0 :=
+  bbmd_once wf pop mesh (no := n2) (by decide) (o := b2) (by decide) home_b
+    (nx := n2) (by decide) (x := b2) (by decide) home_b []
+
+/-- TEST (evaluation of the model on the example world, not a theorem about all worlds):
+    the foreign device's broadcast is seen 9 times in all — every node but itself and the
+    unregistered device — and leaves the queue empty -/
+example : ((world.broadcast (ad 4 100) [7]).2.1.length, (world.broadcast (ad 4 100) [7]).2.2) = (9, true) := by
+  decide +kernel
+
+end Example
+
 end BacVerif.C13
